@@ -1,17 +1,298 @@
 package main
 
 import (
+	"flag"
 	"fmt"
+	"os"
+	"path/filepath"
+	"sort"
+	"strings"
+	"time"
+
 	"golang.org/x/tools/go/packages"
 	"golang.org/x/tools/go/ssa"
 	"golang.org/x/tools/go/ssa/ssautil"
 )
 
-func main() {
-	cfg := &packages.Config{Mode: packages.LoadAllSyntax, Dir: "/repo", BuildFlags: []string{"-tags=verif"}}
-	pkgs, err := packages.Load(cfg, "./...")
-	if err != nil { panic(err) }
-	prog, spkgs := ssautil.AllPackages(pkgs, ssa.InstantiateGenerics)
-	prog.Build()
-	fmt.Println(len(spkgs))
+type Loaded struct {
+	prog    *ssa.Program
+	pkgs    []*packages.Package
+	byKey   map[string]*ssa.Function
+	generic map[string][]*ssa.Function
+	loadS   float64
 }
+
+func loadRepo(repo string) (*Loaded, error) {
+	start := time.Now()
+	cfg := &packages.Config{Mode: packages.LoadAllSyntax, Dir: repo, BuildFlags: []string{"-tags=verif"},
+		Env: append(os.Environ(), "GOFLAGS=-mod=mod", "GOPROXY=off", "GOSUMDB=off", "GOTOOLCHAIN=local")}
+	pkgs, err := packages.Load(cfg, "./...")
+	if err != nil {
+		return nil, err
+	}
+	var errs []string
+	packages.Visit(pkgs, nil, func(p *packages.Package) {
+		for _, e := range p.Errors {
+			if strings.HasPrefix(p.PkgPath, modPrefix) {
+				errs = append(errs, e.Error())
+			}
+		}
+	})
+	if len(errs) > 0 {
+		return nil, fmt.Errorf("repository does not type-check: %s", strings.Join(errs, "; "))
+	}
+	prog, _ := ssautil.AllPackages(pkgs, ssa.InstantiateGenerics|ssa.GlobalDebug)
+	prog.Build()
+	ld := &Loaded{prog: prog, pkgs: pkgs, byKey: map[string]*ssa.Function{}, generic: map[string][]*ssa.Function{}}
+	for fn := range ssautil.AllFunctions(prog) {
+		if fn.Pkg == nil && fn.Object() == nil {
+			continue
+		}
+		if len(fn.Blocks) == 0 {
+			continue
+		}
+		k := fnKey(fn)
+		if old, dup := ld.byKey[k]; dup && old.Synthetic == "" {
+			continue
+		}
+		ld.byKey[k] = fn
+		if gk, _ := genericKey(fn); gk != "" {
+			ld.generic[gk] = append(ld.generic[gk], fn)
+		}
+	}
+	for _, l := range ld.generic {
+		sort.Slice(l, func(i, j int) bool { return fnKey(l[i]) < fnKey(l[j]) })
+	}
+	ld.loadS = time.Since(start).Seconds()
+	return ld, nil
+}
+
+func hasTag(tags []string, p string) bool {
+	for _, t := range tags {
+		if t == p {
+			return true
+		}
+	}
+	return false
+}
+
+func contractHasTag(c *Contract, p string) bool {
+	if hasTag(c.Safety, p) || hasTag(c.AssignTags, p) {
+		return true
+	}
+	for _, cl := range c.Requires {
+		if hasTag(cl.Tags, p) {
+			return true
+		}
+	}
+	for _, cl := range c.Ensures {
+		if hasTag(cl.Tags, p) {
+			return true
+		}
+	}
+	if c.Appends != nil && hasTag(c.Appends.Tags, p) {
+		return true
+	}
+	if c.AllocBound != nil && hasTag(c.AllocBound.Tags, p) {
+		return true
+	}
+	for _, l := range c.Loops {
+		for _, cl := range l.Invariants {
+			if hasTag(cl.Tags, p) {
+				return true
+			}
+		}
+		if l.Decreases != nil && hasTag(l.Decreases.Tags, p) {
+			return true
+		}
+	}
+	return false
+}
+
+func header(specs *Specs, x *Exec) string {
+	var b strings.Builder
+	b.WriteString("(set-option :produce-models true)\n(set-logic ALL)\n")
+	b.WriteString(specs.Prelude)
+	if x != nil {
+		var names []string
+		for n := range x.ufDecl {
+			names = append(names, n)
+		}
+		sort.Strings(names)
+		for _, n := range names {
+			b.WriteString(x.ufDecl[n] + "\n")
+		}
+	}
+	return b.String()
+}
+
+func main() {
+	if len(os.Args) < 2 {
+		fmt.Fprintln(os.Stderr, "usage: plencvc check|dump|list ...")
+		os.Exit(2)
+	}
+	switch os.Args[1] {
+	case "check":
+		os.Exit(cmdCheck(os.Args[2:]))
+	case "dump":
+		os.Exit(cmdDump(os.Args[2:]))
+	case "list":
+		os.Exit(cmdList(os.Args[2:]))
+	case "selftest":
+		os.Exit(cmdSelftest(os.Args[2:]))
+	}
+	fmt.Fprintln(os.Stderr, "unknown command")
+	os.Exit(2)
+}
+
+func cmdList(args []string) int {
+	fs := flag.NewFlagSet("list", flag.ExitOnError)
+	repo := fs.String("repo", "/repo", "")
+	fs.Parse(args)
+	ld, err := loadRepo(*repo)
+	if err != nil {
+		fmt.Println(err)
+		return 2
+	}
+	var keys []string
+	for k := range ld.byKey {
+		if strings.HasPrefix(k, "plenc") || strings.HasPrefix(k, "null") || strings.HasPrefix(k, "cmd/") || strings.HasPrefix(k, "encoding/binary.Uvarint") {
+			keys = append(keys, k)
+		}
+	}
+	sort.Strings(keys)
+	for _, k := range keys {
+		gk, _ := genericKey(ld.byKey[k])
+		fmt.Println(k, gk)
+	}
+	return 0
+}
+
+func cmdDump(args []string) int {
+	fs := flag.NewFlagSet("dump", flag.ExitOnError)
+	repo := fs.String("repo", "/repo", "")
+	verif := fs.String("verif", "/verif", "")
+	fn := fs.String("func", "", "function key")
+	smt := fs.Bool("smt", false, "print the SMT scripts")
+	timeout := fs.Int("timeout", 10, "")
+	fs.Parse(args)
+	specs, err := loadSpecs(filepath.Join(*verif, "spec"), *repo)
+	if err != nil {
+		fmt.Println(err)
+		return 2
+	}
+	ld, err := loadRepo(*repo)
+	if err != nil {
+		fmt.Println(err)
+		return 2
+	}
+	f := ld.byKey[*fn]
+	if f == nil {
+		fmt.Println("no such function", *fn)
+		return 2
+	}
+	con, tp := (&Exec{specs: specs}).contractFor(f)
+	if con == nil {
+		con = &Contract{Func: *fn, Loops: map[int]*LoopSpec{}}
+	}
+	x := newExec(ld.prog, specs, f, con, tp)
+	if err := x.analyze(); err != nil {
+		fmt.Println("ERROR:", err)
+	}
+	var obls []*Obligation
+	for _, n := range x.order {
+		obls = append(obls, x.obls[n])
+	}
+	work, _ := os.MkdirTemp("", "plencvc")
+	defer os.RemoveAll(work)
+	dischargeAll(obls, header(specs, x), work, *timeout, false, 8)
+	for _, o := range obls {
+		status, _ := obligationStatus(o)
+		fmt.Printf("%-8s %s  [%s] %s  (%d queries, %d trivial) %s\n", status, o.Name, strings.Join(o.Tags, ","), o.Pos, len(o.Queries), o.Trivial, o.Text)
+		if o.GenFail != "" {
+			fmt.Println("    could not be generated:", o.GenFail)
+		}
+		for _, q := range o.Queries {
+			if q.Time > 1.0 {
+				fmt.Printf("    slow: path %d %s %s %.2fs\n", q.PathID, q.Result, q.Solver, q.Time)
+			}
+			if q.Result != q.Expect {
+				fmt.Printf("    path %d: %s (%s %.2fs) %v\n", q.PathID, q.Result, q.Solver, q.Time, compactModel(q.Model))
+				if q.Result != "sat" && q.Result != "unsat" {
+					fmt.Println("    ", firstLines(q.Output, 6))
+				}
+			}
+			if *smt {
+				fmt.Println(q.Script)
+			}
+		}
+	}
+	for _, w := range x.warnings {
+		fmt.Println("warning:", w)
+	}
+	for _, a := range sortedKeys(x.assumptions) {
+		fmt.Println("assumption:", a)
+	}
+	return 0
+}
+
+func compactModel(m map[string]string) string {
+	var ks []string
+	for k := range m {
+		ks = append(ks, k)
+	}
+	sort.Strings(ks)
+	var parts []string
+	for _, k := range ks {
+		if strings.Contains(k, "[") {
+			continue
+		}
+		parts = append(parts, k+"="+m[k])
+	}
+	return strings.Join(parts, " ")
+}
+
+// obligationStatus: "proved", "FAILED", "unknown", "genfail", "covered"
+func obligationStatus(o *Obligation) (string, *Query) {
+	if o.GenFail != "" {
+		return "genfail", nil
+	}
+	var bad *Query
+	status := "proved"
+	if o.Expect == "sat" {
+		status = "covered"
+	}
+	if o.Expect == "sat" {
+		// a cover obligation holds when at least one of its queries is satisfiable
+		for _, q := range o.Queries {
+			if q.Result == "sat" {
+				return "covered", nil
+			}
+		}
+		for _, q := range o.Queries {
+			if q.Result != "unsat" {
+				return "unknown", q
+			}
+		}
+		if len(o.Queries) > 0 {
+			return "VACUOUS", o.Queries[0]
+		}
+		return "VACUOUS", nil
+	}
+	for _, q := range o.Queries {
+		if q.Result == q.Expect {
+			continue
+		}
+		if q.Expect == "unsat" && q.Result == "sat" {
+			return "FAILED", q
+		}
+		if q.Expect == "sat" && q.Result == "unsat" {
+			return "VACUOUS", q
+		}
+		status = "unknown"
+		bad = q
+	}
+	return status, bad
+}
+
+func cmdSelftest(args []string) int { return 2 }
